@@ -20,7 +20,7 @@ META = dict(
     id="C08", level="exploration",
     title="Domain geometry is self-consistent and domain identity is canonical",
     technique="closed-form geometry oracle from descriptors + object-identity/pickle histories",
-    rule=("case i -> family i%8 in {RG, RG, LM, SPHERE(GL/HP), PS, PS, DOF, IDENT}. RG: 1-3-D, 1..9 "
+    rule=("case i -> family (i+i//8)%8 in {RG, RG, LM, SPHERE(GL/HP), PS, PS, DOF, IDENT}. RG: 1-3-D, 1..9 "
           "pixels/axis, default/scalar/equal/nearly-equal/very-unequal/random distances, position or "
           "harmonic, 4 spellings; LM: all lmax<=8, mmax<=lmax (enumerated); GL nlat<=8, nlon "
           "default/custom; HP nside 1-4; PS over RG/LM partners with natural, random mid-point, "
@@ -715,7 +715,8 @@ def case_ident(ck, rng):
 
 def case(ck, i):
     rng = ck.rng()
-    fam = FAMS[i % len(FAMS)]
+    # rotate the family within every block of 8 so that each worker (i = w mod W) sees all families
+    fam = FAMS[(i + i // len(FAMS)) % len(FAMS)]
     j = i // len(FAMS)
     with np.errstate(all="ignore"):
         if fam == "RG":
